@@ -82,6 +82,24 @@ def pulledFrom (limit : Nat) : St → List Item → Nat × Bool
 
 def pulled (limit : Nat) (items : List Item) : Nat × Bool := pulledFrom limit (.run []) items
 
+/-! ### schedules -/
+
+/-- what one `poll_next` call returns to the loop; `ready!` turns `Pending` into an early return
+with the loop state untouched, the next `poll` re-enters the loop -/
+inductive PollEv where
+  | ready (it : Item)
+  | pending
+deriving Repr, DecidableEq
+
+def stepPoll (limit : Nat) (s : St) : PollEv → St
+  | .ready it => step limit s it
+  | .pending => s
+
+def readyItems : List PollEv → List Item
+  | [] => []
+  | .ready it :: rest => it :: readyItems rest
+  | .pending :: rest => readyItems rest
+
 /-! ### stream views -/
 
 /-- bytes delivered before the first stream error -/
